@@ -285,6 +285,19 @@ Average(inf) == LET tot == RSumSeq(inf.s)
                    ELSE [j \in 1..Len(inf.s) |-> RDiv(inf.s[j], tot)]
 AverageProfile(st) == [p \in 1..2 |-> [i \in DOMAIN st[p] |-> Average(st[p][i])]]
 
+\* a rational distribution as integer weights (for Game.tla's Evaluate)
+RECURSIVE LcmDen(_)
+LcmDen(v) == IF v = <<>> THEN 1
+             ELSE LET l == LcmDen(Tail(v))
+                      d == Head(v)[2]
+                      g == GCD(l, d)
+                  IN IF d = 0 \/ l = 0 \/ ~MulOK(l \div g, d) THEN 0 ELSE (l \div g) * d
+ToWeights(v) == LET l == LcmDen(v)
+                IN IF l = 0 THEN [j \in 1..Len(v) |-> 0]
+                   ELSE [j \in 1..Len(v) |-> IF MulOK(v[j][1], l \div v[j][2]) THEN v[j][1] * (l \div v[j][2]) ELSE 0]
+WeightProfile(prof) == [p \in 1..2 |-> [i \in DOMAIN prof[p] |-> ToWeights(prof[p][i])]]
+WeightsOK(wp) == \A p \in 1..2 : \A i \in DOMAIN wp[p] : SumSeq(wp[p][i]) > 0
+
 \* is some number of the state poisoned (32 bit overflow of the exact arithmetic)?
 StatePoisoned(st) == \E p \in 1..2 : \E i \in DOMAIN st[p] :
                         AnyPoison(st[p][i].r) \/ AnyPoison(st[p][i].s) \/ AnyPoison(st[p][i].cur)
